@@ -1,0 +1,100 @@
+//go:build verif
+
+// Contracts for gocv (see /verif/DESIGN.md). Comment-only file: takes no part in any build.
+
+package table
+
+// ---- C10: the cache of pending row operations ---------------------------------------------------------
+// rows    : the operations of the current save window, in order (Ty: 0 None, 1 Add, 2 Update, 3 Del)
+// rowmap  : primary key -> the pending Add/Update row of that key
+// A key is currently present iff it has a pending Add/Update, or it is stored and no Del is pending:
+//   present(k) = has(rowmap, k) || (!pendingDel(k) && stored(k))
+
+// meta / payload access and the database read do not touch the cache
+//@ trusted func (*Table).checkIndex
+//@   frame ~Table.rows, ~Table.rowmap, ~Row.Ty, ~Row.Primary, ~Row.Data, ~Row.old, ~map:string|*github.com/33cn/chain33/common/db/table.Row, ~mem:*github.com/33cn/chain33/common/db/table.Row, ~mem:uint8
+//@ trusted func (*Table).primaryKey
+//@   frame ~Table.rows, ~Table.rowmap, ~Row.Ty, ~Row.Primary, ~Row.Data, ~Row.old, ~map:string|*github.com/33cn/chain33/common/db/table.Row, ~mem:*github.com/33cn/chain33/common/db/table.Row, ~mem:uint8
+//@ trusted func (*Table).getPrimaryFromData
+//@   frame ~Table.rows, ~Table.rowmap, ~Row.Ty, ~Row.Primary, ~Row.Data, ~Row.old, ~map:string|*github.com/33cn/chain33/common/db/table.Row, ~mem:*github.com/33cn/chain33/common/db/table.Row, ~mem:uint8
+// rowStored(table, k): the database holds a row under primary key k (the database is not written
+// between two saves, so this is a fixed relation during any of the calls below)
+//@ smt (declare-fun rowStored (Int Bytes) Bool)
+//@ trusted func (*Table).GetData
+//@   frame allocates
+//@   ensures result1 == nil ==> result0 != nil && fresh(result0) && bytes(result0.Primary) == bytes(primaryKey)
+//@   ensures result1 == types.ErrNotFound <==> !rowStored(table, bytes(primaryKey))
+
+//@ func (*Table).addRowCache [C10]
+//@   opt safety=assumed overflow=assumed
+//@   requires row != nil && table.rowmap != nil
+//@   frame allocates, Table.rows, mem:*github.com/33cn/chain33/common/db/table.Row, map:string|*github.com/33cn/chain33/common/db/table.Row@table.rowmap
+//@   ensures len(table.rows) == old(len(table.rows)) + 1 && table.rows[old(len(table.rows))] == row
+//@   ensures forall j :: 0 <= j && j < old(len(table.rows)) ==> table.rows[j] == old(table.rows[j])
+//@   ensures row.Ty == 3 ==> !has(table.rowmap, bytes(row.Primary))
+//@   ensures row.Ty == 1 || row.Ty == 2 ==> has(table.rowmap, bytes(row.Primary)) && table.rowmap[bytes(row.Primary)] == row
+//@   ensures row.Ty == 0 ==> has(table.rowmap, bytes(row.Primary)) == old(has(table.rowmap, bytes(row.Primary))) && table.rowmap[bytes(row.Primary)] == old(table.rowmap[bytes(row.Primary)])
+//@   ensures forall k Bytes :: k != bytes(row.Primary) ==> has(table.rowmap, k) == old(has(table.rowmap, k)) && table.rowmap[k] == old(table.rowmap[k])
+
+//@ func (*Table).delRowCache [C10]
+//@   opt safety=assumed
+//@   requires row != nil && table.rowmap != nil
+//@   frame Row.Ty, map:string|*github.com/33cn/chain33/common/db/table.Row@table.rowmap
+//@   ensures row.Ty == 0 && !has(table.rowmap, bytes(row.Primary))
+//@   ensures forall r Int :: r != row ==> ptr(r, Row).Ty == old(ptr(r, Row).Ty)
+//@   ensures forall k Bytes :: k != bytes(row.Primary) ==> has(table.rowmap, k) == old(has(table.rowmap, k)) && table.rowmap[k] == old(table.rowmap[k])
+
+// findRow: the cache first; a pending delete hides the stored row; otherwise the database
+//@ func (*Table).findRow [C10]
+//@   opt safety=assumed
+//@   requires forall j :: 0 <= j && j < len(table.rows) ==> table.rows[j] != nil
+//@   frame allocates
+//@   ensures old(has(table.rowmap, bytes(primary))) ==> result1 && result2 == nil && result0 == old(table.rowmap[bytes(primary)])
+//@   ensures !old(has(table.rowmap, bytes(primary))) ==> !result1
+//@   ensures old(!has(table.rowmap, bytes(primary)) && (exists j :: 0 <= j && j < len(table.rows) && table.rows[j].Ty == 3 && bytes(table.rows[j].Primary) == bytes(primary))) ==> result2 == types.ErrNotFound
+//@   ensures old(!has(table.rowmap, bytes(primary)) && !(exists j :: 0 <= j && j < len(table.rows) && table.rows[j].Ty == 3 && bytes(table.rows[j].Primary) == bytes(primary))) ==> called(GetData) && result2 == ret1(GetData) && result0 == ret0(GetData)
+//@   ensures old(!has(table.rowmap, bytes(primary)) && !(exists j :: 0 <= j && j < len(table.rows) && table.rows[j].Ty == 3 && bytes(table.rows[j].Primary) == bytes(primary))) ==> (result2 == types.ErrNotFound <==> !rowStored(table, old(bytes(primary))))
+//@   ensures !old(has(table.rowmap, bytes(primary))) && result2 == nil ==> result0 != nil && fresh(result0) && bytes(result0.Primary) == old(bytes(primary))
+//@   assert@call GetData: arg1 == primary
+//@   loop 0 invariant -1 <= i && i < len(table.rows)
+//@   loop 0 invariant forall j :: i < j && j < len(table.rows) ==> !(table.rows[j].Ty == 3 && bytes(table.rows[j].Primary) == bytes(primary))
+
+// Add succeeds exactly when the key is currently absent
+//@ func (*Table).Add [C10]
+//@   opt safety=assumed overflow=assumed
+//@   requires table.rowmap != nil
+//@   requires forall j :: 0 <= j && j < len(table.rows) ==> table.rows[j] != nil
+//@   ensures result == nil ==> !old(has(table.rowmap, bytes(ret0(primaryKey))))
+//@   ensures result == nil ==> (exists j :: 0 <= j && j < old(len(table.rows)) && old(table.rows[j].Ty) == 3 && old(bytes(table.rows[j].Primary)) == bytes(ret0(primaryKey))) || !rowStored(table, bytes(ret0(primaryKey)))
+//@   ensures ret(checkIndex) == nil && called(primaryKey) && ret1(primaryKey) == nil && !old(has(table.rowmap, bytes(ret0(primaryKey)))) && ((exists j :: 0 <= j && j < old(len(table.rows)) && old(table.rows[j].Ty) == 3 && old(bytes(table.rows[j].Primary)) == bytes(ret0(primaryKey))) || !rowStored(table, bytes(ret0(primaryKey)))) ==> result == nil
+//@   ensures result == nil ==> len(table.rows) == old(len(table.rows)) + 1 && table.rows[old(len(table.rows))].Ty == 1 && table.rows[old(len(table.rows))].Data == data && table.rows[old(len(table.rows))].Primary == ret0(primaryKey)
+//@   ensures result == nil ==> has(table.rowmap, bytes(ret0(primaryKey))) && table.rowmap[bytes(ret0(primaryKey))] == table.rows[old(len(table.rows))]
+//@   ensures result != nil ==> len(table.rows) == old(len(table.rows))
+
+// Del: a pending Add is cancelled; otherwise a Del row carrying the *stored* data is queued
+//@ func (*Table).Del [C10]
+//@   opt safety=assumed overflow=assumed
+//@   requires table.rowmap != nil
+//@   requires forall j :: 0 <= j && j < len(table.rows) ==> table.rows[j] != nil
+//@   requires has(table.rowmap, bytes(primaryKey)) ==> table.rowmap[bytes(primaryKey)] != nil && bytes(table.rowmap[bytes(primaryKey)].Primary) == bytes(primaryKey)
+// (a cached row is removed from the cache through delRowCache, which deletes the key row.Primary;
+//  that this key is the requested one is the representation invariant rowmap[k].Primary == k)
+//@   assert@call delRowCache: arg1 == old(table.rowmap[bytes(primaryKey)]) && old(has(table.rowmap, bytes(primaryKey)))
+//@   ensures result == nil && old(has(table.rowmap, bytes(primaryKey))) ==> called(delRowCache)
+//@   ensures result == nil && !old(has(table.rowmap, bytes(primaryKey))) ==> !has(table.rowmap, bytes(primaryKey))
+//@   ensures result == nil && old(has(table.rowmap, bytes(primaryKey))) ==> old(table.rowmap[bytes(primaryKey)]).Ty == 0
+//@   ensures result == nil && old(has(table.rowmap, bytes(primaryKey))) && old(table.rowmap[bytes(primaryKey)].Ty) == 1 ==> len(table.rows) == old(len(table.rows))
+//@   ensures result == nil && old(has(table.rowmap, bytes(primaryKey))) && old(table.rowmap[bytes(primaryKey)].Ty) == 2 ==> len(table.rows) == old(len(table.rows)) + 1 && table.rows[old(len(table.rows))].Ty == 3 && table.rows[old(len(table.rows))].Data == old(table.rowmap[bytes(primaryKey)].old)
+//@   ensures result == nil && !old(has(table.rowmap, bytes(primaryKey))) ==> len(table.rows) == old(len(table.rows)) + 1 && table.rows[old(len(table.rows))].Ty == 3 && table.rows[old(len(table.rows))].Data == ret0(findRow).Data
+//@   ensures result != nil ==> len(table.rows) == old(len(table.rows))
+
+// Update: only a currently present row; a pending row is modified in place, else an Update row with
+// the stored data as `old` is queued
+//@ func (*Table).Update [C10]
+//@   opt safety=assumed overflow=assumed
+//@   requires table.rowmap != nil
+//@   requires forall j :: 0 <= j && j < len(table.rows) ==> table.rows[j] != nil
+//@   requires forall k Bytes :: has(table.rowmap, k) ==> table.rowmap[k] != nil
+//@   ensures result == nil && !old(has(table.rowmap, bytes(primaryKey))) ==> !(exists j :: 0 <= j && j < old(len(table.rows)) && old(table.rows[j].Ty) == 3 && old(bytes(table.rows[j].Primary)) == bytes(primaryKey))
+//@   ensures result == nil && !old(has(table.rowmap, bytes(primaryKey))) ==> len(table.rows) == old(len(table.rows)) + 1 && table.rows[old(len(table.rows))].Ty == 2 && table.rows[old(len(table.rows))].Data == newdata && table.rows[old(len(table.rows))].old == ret0(findRow).Data
+//@   ensures result == nil && old(has(table.rowmap, bytes(primaryKey))) ==> len(table.rows) == old(len(table.rows)) && old(table.rowmap[bytes(primaryKey)]).Data == newdata
